@@ -186,8 +186,12 @@ func repairLog(lc *logCase, full bool, dir string) {
 	var ci corrInfo
 	nviol := 0
 	mode := "fresh"
+	badMode := map[string]bool{} // modes whose undamaged case already fails: their corruptions would only repeat that
 	out := func(oracle, what string) {
 		nviol++
+		if ci.clean {
+			badMode[mode] = true
+		}
 		cc := cur
 		reportViolation(sig(ci.class, oracle, "repair"), lc.name+": "+cur.String()+" ("+mode+" repair): "+what, caseSpec{Phase: "repair", Tokens: lc.toks, TokenNames: lc.name, Corr: &cc, Mode: mode})
 	}
@@ -200,6 +204,12 @@ func repairLog(lc *logCase, full bool, dir string) {
 		}
 		cur, ci = c, info
 		for mi, m := range repairModes {
+			if badMode[m] {
+				continue
+			}
+			if m != "in-place" && c.Kind == "flip" && c.Bit != c.Off%8 {
+				continue // fresh / over-existing destinations: one flip per byte; the production (in-place) path gets all eight
+			}
 			mode = m
 			k := checkRepair(lc, C, &ci, m, dir, out)
 			evals++
@@ -208,8 +218,8 @@ func repairLog(lc *logCase, full bool, dir string) {
 		mode = "fresh"
 	}
 	run(corr{Kind: "clean"})
-	if nviol > 0 {
-		return // the undamaged log is not repaired to itself: its corruptions would only repeat that
+	if len(badMode) == len(repairModes) {
+		return
 	}
 	for t := 0; t < len(lc.W); t++ {
 		run(corr{Kind: "trunc", Off: t})
